@@ -32,7 +32,7 @@ Type trees (JSON-able dicts)
   core(tree)            strip frozen/reversed wrappers at the head
   depth(tree)           container nesting depth (scalars 0; frozen/reversed do not count)
   leaves(tree)          list of scalar names in the tree (with repetitions)
-  contains(tree, name)  does a node with "t"==name occur
+  contains(tree, name)  does a node with "t"==name occur;  contains_value(tree, value, name): ... with a non-null value
   fixed_width(tree)     Cassandra's valueLengthIfFixed (int) or None
   orderable(tree)       may be a set element (driver can sort + hash it);  keyable(tree): may be a map key
   cql_name(tree)        'map<int, frozen<list<text>>>'
@@ -70,6 +70,9 @@ Python objects
          style 1 stdlib alternates (datetime.date/time when exact, ipaddress, frozenset, tuple for list, UDT namedtuple)
          style 2 driver containers / raw ints (factory.sorted_set / ordered_map, UDT attribute object, int ms,
                  int wire date, int nanos, exploded IPv6 text)
+         style 3 as style 0, but timestamps are timezone-AWARE datetimes with a fixed non-trivial UTC offset
+                 (aware_datetime(ms); offsets TZ_OFFSETS_MIN) -- the documented normalisation is aware -> naive UTC,
+                 so the tagged millisecond instant must survive
          factory supplies date(days) time(nanos) duration(m,d,n) ordered_map(pairs) sorted_set(items)
                  udt_tuple(tree, values) udt_object(tree, values)   (see checks/_drv.py for the cassandra one)
     normalise(tree, obj) -> tagged value  (NormaliseError when obj has the wrong Python type for the tree)
@@ -213,6 +216,25 @@ def contains(tree, name):
     if tree["t"] == name:
         return True
     return any(contains(c, name) for c in children(tree))
+
+
+def contains_value(tree, v, name):
+    """does the tagged value v hold at least one non-null value of scalar type `name`"""
+    if v is None or _is_empty(v):
+        return False
+    t = tree["t"]
+    if t == name:
+        return True
+    if t in _SCALAR_SET:
+        return False
+    if t in ("frozen", "reversed"):
+        return contains_value(tree["of"], v, name)
+    if t in ("list", "set", "vector"):
+        return any(contains_value(tree["of"], x, name) for x in v)
+    if t == "map":
+        return any(contains_value(tree["k"], k, name) or contains_value(tree["v"], x, name) for k, x in v)
+    subs = tree["of"] if t == "tuple" else [f[1] for f in tree["fields"]]
+    return any(contains_value(sub, x, name) for sub, x in zip(subs, v))
 
 
 def fixed_width(tree):
@@ -881,6 +903,25 @@ def pydatetime(ms):
     return _EPOCH + datetime.timedelta(milliseconds=ms)
 
 
+# fixed UTC offsets (minutes) for the timezone-aware input style; which one a value gets is a pure
+# function of the value so that cases stay plain data
+TZ_OFFSETS_MIN = (330, -330, 840, -720, 0, 60, -1, 765, -210)
+
+
+def tz_offset_minutes(ms):
+    return TZ_OFFSETS_MIN[(abs(ms) // 1000 + abs(ms)) % len(TZ_OFFSETS_MIN)]
+
+
+def aware_datetime(ms):
+    """timezone-aware datetime (fixed-offset datetime.timezone) denoting the instant `ms`; falls back to
+    the naive UTC datetime when the local wall time would leave datetime's range"""
+    off = datetime.timedelta(minutes=tz_offset_minutes(ms))
+    try:
+        return (pydatetime(ms) + off).replace(tzinfo=datetime.timezone(off))
+    except OverflowError:
+        return pydatetime(ms)
+
+
 def _has_map(tree):
     return contains(tree, "map")
 
@@ -910,6 +951,8 @@ def to_python(tree, v, style=0, factory=None, hashable=False):
     if t == "timestamp":
         if style == 2 or not MIN_TIMESTAMP_MS <= v <= MAX_TIMESTAMP_MS:
             return int(v)
+        if style == 3:
+            return aware_datetime(v)
         return pydatetime(v)
     if t == "date":
         if style == 1 and MIN_PYDATE_DAYS <= v <= MAX_PYDATE_DAYS:
